@@ -476,6 +476,40 @@ func r3(c *core.Ctx, rov *core.Fn) {
 	// rebind statement
 	reb, b := pat.Stmt("_r = NewRdbReader(io.TeeReader(_r, &_b))").Find(info, rov.Decl.Body, pat.Binds{"_r": rov.Decl.Recv.List[0].Names[0]})
 	if reb == nil {
+		// the tee reader kept in a variable of its own: `x := NewRdbReader(io.TeeReader(r, &b))`
+		// (alone or next to other definitions); the reads below are traced to that statement
+		var call ast.Node
+		call, b = pat.Expr("NewRdbReader(io.TeeReader(_r, &_b))").Find(info, rov.Decl.Body, pat.Binds{"_r": rov.Decl.Recv.List[0].Names[0]})
+		if call != nil {
+			for _, st := range rov.Decl.Body.List {
+				if st.Pos() <= call.Pos() && call.End() <= st.End() {
+					switch x := st.(type) {
+					case *ast.AssignStmt:
+						for _, rh := range x.Rhs {
+							if ast.Unparen(rh) == call {
+								reb = st
+							}
+						}
+					case *ast.DeclStmt:
+						if gd, ok := x.Decl.(*ast.GenDecl); ok && len(gd.Specs) == 1 {
+							if vs, ok := gd.Specs[0].(*ast.ValueSpec); ok {
+								for _, rh := range vs.Values {
+									if ast.Unparen(rh) == call {
+										reb = st
+									}
+								}
+							}
+						}
+					}
+				}
+			}
+			if reb == nil {
+				c.Undecidedf("R3.capture", "readObjectValue/tee", call.Pos(), "the tee reader NewRdbReader(io.TeeReader(r, &b)) is built, but not by a top-level assignment or definition of readObjectValue")
+				return
+			}
+		}
+	}
+	if reb == nil {
 		c.Failf("R3.capture", "readObjectValue/tee", rov.Decl.Pos(), "readObjectValue must rebind its reader to NewRdbReader(io.TeeReader(r, &b)): without the tee the returned payload is not the bytes consumed")
 		return
 	}
